@@ -170,8 +170,9 @@ func LoadRepo(repo string, cfg BuildConfig) (*World, error) {
 }
 
 // FuncName gives the key used in rule instance keys: pkg-relative, stable.
-//   main package: "transformLink", "(*transformer).transformLink", "commandReverse$1"
-//   others:       "literals.Obfuscate", "(linker).x"
+//
+//	main package: "transformLink", "(*transformer).transformLink", "commandReverse$1"
+//	others:       "literals.Obfuscate", "(linker).x"
 func (w *World) FuncName(fn *ssa.Function) string {
 	if fn == nil {
 		return "<nil>"
